@@ -228,11 +228,19 @@ def main():
             ],
         }
         meta.update(EXTRA.get(name, {}))
+        try:        # keep earlier detection results when no log covers it
+            prev = json.load(open(os.path.join(d, 'meta.json')))
+            for k in ('detected_by', 'detected_with', 'harness_errors'):
+                if k in prev:
+                    meta[k] = prev[k]
+        except Exception:
+            pass
         for key in ('seeded/%s/patch.rebased.diff' % name,
                     'seeded/%s/patch.diff' % name):
             if key in det:
                 meta['detected_by'] = det[key][0]
                 meta['detected_with'] = os.path.basename(key)
+                meta.pop('harness_errors', None)
                 if det[key][1]:
                     meta['harness_errors'] = det[key][1]
                 break
